@@ -1,0 +1,22 @@
+//go:build verif
+
+package stcp
+
+import "net"
+
+// Hooks for the verification machinery in /verif (property C16). Add-only; compiled only with
+// the build tag `verif`.
+
+// VerifServe runs the server's accept loop (loopAccept, unchanged) on a listener supplied by the
+// caller instead of the one startListen opens, so that connections — in-memory or loopback TCP on
+// a port known to the caller — can be fed to it one at a time. It returns when the listener fails
+// permanently (e.g. after Close).
+func (s *Server) VerifServe(ln net.Listener, opts ...Option) error {
+	var cnf = defaultStartOpt()
+	for _, opt := range opts {
+		opt(cnf)
+	}
+	s.ch.SetLogger(cnf.logger)
+	s.ln = ln
+	return s.loopAccept(cnf)
+}
